@@ -210,14 +210,27 @@ def check_attribute_order(src, filename, rnd, n_nodes, n_fresh):
     for k in keys:
         a, b = runs['front-to-back'][k], runs['back-to-front'][k]
         if a != b:
-            problems.append(('attribute-answer-order-dependent', 'receiver of the attribute access at %s: %s attributes when the module is asked front to back, %s back to front (difference %s)' % (
+            problems.append(('attribute-answer-order-dependent' + instance_table_suffix(src, filename, k, a, b), 'receiver of the attribute access at %s: %s attributes when the module is asked front to back, %s back to front (difference %s)' % (
                 k[:2], None if a is None else len(a), None if b is None else len(b), sorted(set(a or ()) ^ set(b or ()))[:6])))
             break
         if k in fresh and fresh[k] != a:
-            problems.append(('attribute-answer-differs-from-first-query', 'receiver of the attribute access at %s: %s attributes as the first query of a fresh analysis, %s after the accesses before it (difference %s)' % (
+            problems.append(('attribute-answer-differs-from-first-query' + instance_table_suffix(src, filename, k, fresh[k], a), 'receiver of the attribute access at %s: %s attributes as the first query of a fresh analysis, %s after the accesses before it (difference %s)' % (
                 k[:2], None if fresh[k] is None else len(fresh[k]), None if a is None else len(a), sorted(set(a or ()) ^ set(fresh[k] or ()))[:6])))
             break
     return problems, stats
+
+
+def instance_table_suffix(src, filename, key, a, b):
+    """':instance-attribute-table' when the receiver is an instance of a source class and every differing name is an attribute
+    its base classes assign through self (the listed finding about per-instance tables kept although cut by a guard)"""
+    diff = set(a or ()) ^ set(b or ())
+    try:
+        tree = ast.parse(src)
+        node = [n for n in ast.walk(tree) if isinstance(n, ast.Attribute) and (n.lineno, n.col_offset, n.end_col_offset) == tuple(key)][0]
+        names = suppview.base_assigned_names(src, filename, node.value.end_lineno, node.value.end_col_offset)
+    except Exception:
+        names = None
+    return ':instance-attribute-table' if names and diff and diff <= names else ''
 
 
 def attribute_witness(src, filename, keys):
@@ -229,7 +242,8 @@ def attribute_witness(src, filename, keys):
         out[label] = {k: attr_answer(p, nodes[k]) for k in order}
     for k in keys:
         if out['front-to-back'][k] != out['back-to-front'][k]:
-            return [('attribute-answer-order-dependent', 'attribute access at %s: %s vs %s attributes' % (
+            return [('attribute-answer-order-dependent' + instance_table_suffix(src, filename, k, out['front-to-back'][k], out['back-to-front'][k]),
+                     'attribute access at %s: %s vs %s attributes' % (
                 k[:2], len(out['front-to-back'][k] or ()), len(out['back-to-front'][k] or ())))]
     return []
 
@@ -645,4 +659,6 @@ def replay(case):
     return out
 
 
-KNOWN = {}
+KNOWN_SIGS = {'C04-instance-attribute-table-depends-on-history': lambda sig: sig.endswith(':instance-attribute-table')}
+_listed = {e['id'] for e in core.load_known(PROPERTY) if e.get('status') == 'finding'}
+KNOWN = {fid: (lambda v, p=pred: p(v['signature'])) for fid, pred in KNOWN_SIGS.items() if fid in _listed}
